@@ -634,6 +634,8 @@ var grammarOps = []struct {
 	{"share-name", 7, opShareName},
 	{"amplifier", 4, opAmplifier},
 	{"path-argument", 18, opPathArgument},
+	{"revision-twin", 9, opRevisionTwin},
+	{"include-cycle", 9, opIncludeCycle},
 }
 
 // mutateSet applies 1–3 grammar-aware operators to a copy of the set.
